@@ -38,7 +38,7 @@ ASSUMPTIONS = [
     "interfaces are named <component>-<port> (the separator the shipped tests and models use; the docstring's "
     "'_' is stale)",
 ]
-BUDGET = {"quick": 40000, "thorough": 800000}
+BUDGET = {"quick": 40000, "thorough": 400000}
 ENUM_EXHAUSTIVE = True
 EXHAUSTIVE_NOTE = ("exhaustive over the request grid (catalogue values +/-1, 0, beyond maximum) and over catalogue "
                    "entry x naming x id/label shape; the Hypothesis part samples beyond the grid")
